@@ -300,3 +300,59 @@ def pmap(fn, items, workers=None, chunk=64):
     ctx = mp.get_context("fork")
     with ctx.Pool(workers) as pool:
         return pool.map(fn, items, chunksize=chunk)
+
+
+# --------------------------------------------------------------------------- generic stream runner
+
+
+class Stream:
+    """One correspondence/predicate stream: cases -> implementation (forked workers) and model
+    (Lean driver) -> judge.  `judge(case, impl, model)` yields (kind, detail[, finding_key])."""
+
+    registry = {}
+
+    def __init__(self, name, impl, line, judge, chunk=64, nontrivial=None):
+        self.name, self.impl, self.line, self.judge, self.chunk = name, impl, line, judge, chunk
+        self.nontrivial = nontrivial or (lambda c: True)
+        Stream.registry[name] = self
+
+    def run(self, ctx, cases, sample_every=None):
+        cases = list(cases)
+        rep = ctx.rep
+        impls = pmap(self.impl, cases, chunk=self.chunk)
+        lines = [self.line(c) for c in cases]
+        idx = [i for i, l in enumerate(lines) if l is not None]
+        outs = [None] * len(cases)
+        for i, o in zip(idx, ctx.drv.run([lines[i] for i in idx])):
+            outs[i] = o
+        nfail = 0
+        for c, im, mo in zip(cases, impls, outs):
+            rep.count(self.name, json.dumps(c, sort_keys=True, default=str), nontrivial=self.nontrivial(c))
+            for v in self.judge(c, im, mo) or []:
+                kind, detail = v[0], v[1]
+                key = v[2] if len(v) > 2 else None
+                nfail += 1
+                rep.fail(kind, {"stream": self.name, "case": c}, {"detail": detail, "impl": im, "model": mo}, key)
+        if cases:
+            k = min(len(cases) - 1, 7)
+            rep.sample({"stream": self.name, "case": cases[k], "impl": impls[k], "model": outs[k]})
+        return impls, outs
+
+    @staticmethod
+    def replay(ctx, rp):
+        """Re-run the one case of a replay file on the current tree."""
+        case = rp.get("case") or {}
+        st = Stream.registry.get(case.get("stream"))
+        if st is None or "case" not in case:
+            print(json.dumps({"replay": "nothing to re-run (no failing input recorded)", "detail": rp.get("detail")}, default=str)[:2000])
+            return 1 if rp.get("kind") == "unproved" else 0
+        c = case["case"]
+        im = st.impl(c)
+        line = st.line(c)
+        mo = ctx.drv.run([line])[0] if line is not None else None
+        fails = list(st.judge(c, im, mo) or [])
+        print(json.dumps({"case": c, "impl": im, "model": mo, "failures": fails}, default=str)[:4000])
+        if any(f[0] in ("pred", "oracle") for f in fails):
+            print(f"VIOLATION property={ctx.rep.prop} replay={rp.get('_path', '<replay>')}")
+            return 1
+        return 1 if fails else 0
